@@ -211,7 +211,9 @@ def one_roundtrip(ctx, app, seen, rng, pairs, exp, enc, mode, wit):
                     st.as_reused_buffer_view()
                 ctx.count('form_delivered_in_a_single_read')
             env = make_environ('POST', '/q', stream=st, content_length=len(body),
-                               content_type=rng.choice(['application/x-www-form-urlencoded', 'application/x-www-form-urlencoded; charset=utf-8', '']) or None)
+                               content_type=rng.choice(['application/x-www-form-urlencoded', 'application/x-www-form-urlencoded; charset=utf-8', '', 'application/x-www-form-urlencoded; charset=iso-8859-1',
+                                                    'application/x-www-form-urlencoded;charset="UTF-8"', 'application/x-www-form-urlencoded; charset=utf8mb4', 'application/x-www-form-urlencoded; charset=x-user-defined; q=1',
+                                                    'application/x-www-form-urlencoded; charset=us-ascii', 'application/x-www-form-urlencoded; charset=']) or None)
         rq = ombott.Request(env, config={'max_memfile_size': MEMFILE[0]})
         _cmp(ctx, 'Request.forms', rq.forms, exp, wit)
         ctx.count('roundtrips_forms')
